@@ -18,7 +18,8 @@ RULE = ("per class: uniform ACGT strings (length 1..80), strings over the 15-let
         "site; assemblies of 1..4 records drawn from pools of valid and invalid records of the same kit. "
         "Non-trivial = is_valid returned False and all extraction methods were then exercised, or an assembly mixing valid and invalid "
         "records was run; distinct = distinct (class, sequence).")
-ASSUMPTIONS = ["records are CircularRecords over Seq, length >= 1, letters from the IUPAC alphabet in either case"]
+ASSUMPTIONS = ["records are CircularRecords over Seq, length >= 1, letters from the IUPAC alphabet in either case",
+               "a documented MoClo exception whose str()/repr() itself raises counts as an internal error (it surfaces when the failure is logged)"]
 FLOORS = {"c17_is_valid_calls": 5000, "c17_invalid_entities_probed": 1500, "c17_assemblies": 300, "c17_assemblies_failed": 100, "c17_assemblies_succeeded": 30}
 MUST_REACH = ["StructuredRecord.is_valid", "AbstractVector.assemble"]
 BUDGET_S = {"quick": 900, "thorough": 7200}
@@ -53,11 +54,28 @@ def worker_init(ctx, tier):
         s = str(ent.record.seq)
         return dict(cls=type(ent).__name__, seq=s if len(s) < 500 else s[:500] + "...", length=len(s))
 
+    def sstr(exc):
+        try:
+            return str(exc)
+        except Exception as e2:
+            return "<str() raised %s>" % type(e2).__name__
+
+    def printable(exc, where, **w):
+        """a documented MoClo exception that cannot be rendered surfaces as an internal error the moment the user logs it"""
+        ctx.count("c17_moclo_exceptions_rendered")
+        for f in (str, repr):
+            try:
+                f(exc)
+            except Exception as e2:
+                ctx.violation("moclo-exception-cannot-be-rendered:%s:%s" % (type(exc).__name__, type(e2).__name__),
+                              "%s raised %s, and %s() of that exception raises %s: %s" % (where, type(exc).__name__, f.__name__, type(e2).__name__, str(e2)[:120]), **w)
+                return
+
     def post_valid(ent, a, kw, res, exc, token):
         ctx.count("c17_is_valid_calls")
         if exc is not None:
             ctx.violation("is_valid-raises:%s" % type(exc).__name__, "%s(record).is_valid() raised %s: %s" % (
-                type(ent).__name__, type(exc).__name__, str(exc)[:200]), **wit(ent))
+                type(ent).__name__, type(exc).__name__, sstr(exc)[:200]), **wit(ent))
         elif res is not True and res is not False:
             ctx.violation("is_valid-not-bool", "%s(record).is_valid() returned %r" % (type(ent).__name__, res), **wit(ent))
         else:
@@ -69,10 +87,12 @@ def worker_init(ctx, tier):
         def post(ent, a, kw, res, exc, token):
             ctx.count("c17_accessor_calls")
             valid = getattr(ent, "_verif_valid", None)
+            if exc is not None and isinstance(exc, errors.InvalidSequence):
+                printable(exc, "%s.%s()" % (type(ent).__name__, name), **wit(ent))
             if exc is not None and not isinstance(exc, errors.InvalidSequence):
                 ctx.violation("accessor-raises:%s:%s" % (name, type(exc).__name__),
                               "%s.%s() raised %s (%s) instead of returning or raising InvalidSequence" % (
-                                  type(ent).__name__, name, type(exc).__name__, str(exc)[:160]), **wit(ent))
+                                  type(ent).__name__, name, type(exc).__name__, sstr(exc)[:160]), **wit(ent))
             elif valid is False and exc is None:
                 ctx.violation("accessor-returns-on-invalid:%s" % name, "%s.%s() returned %r although is_valid() is False" % (
                     type(ent).__name__, name, str(res)[:60]), **wit(ent))
@@ -93,8 +113,10 @@ def worker_init(ctx, tier):
             ctx.hist("assemble_error", type(exc).__name__)
             if not isinstance(exc, errors.MocloError):
                 ctx.violation("assemble-raises:%s" % type(exc).__name__, "assemble() of %s with %s ended with %s: %s" % (
-                    type(vec).__name__, [type(m).__name__ for m in a], type(exc).__name__, str(exc)[:200]),
+                    type(vec).__name__, [type(m).__name__ for m in a], type(exc).__name__, sstr(exc)[:200]),
                     vector=str(vec.record.seq)[:400], modules=[str(m.record.seq)[:400] for m in a])
+            else:
+                printable(exc, "assemble() of %s" % type(vec).__name__, vector=str(vec.record.seq)[:400], modules=[str(m.record.seq)[:400] for m in a])
         else:
             ctx.hist("assemble_error", "product")
 
